@@ -282,6 +282,7 @@ func registerAll() {
 	ev.Register("defects", defectOracle)
 	ev.Register("models", judged)
 	ev.Register("corpus", corpusOracle)
+	ev.Register("edge-spellings", corpusOracle)
 	ev.Register("feature-table", oracle)
 }
 
@@ -382,6 +383,39 @@ func TestPropCorpus(t *testing.T) {
 }
 
 // exhaustive layout-feature combinations on fixed models, each against the canonical layout
+// hand-written spellings at the edges of the comment / annotation grammar, each under every context-free
+// re-layout: whatever of them the library accepts must stay accepted with the same meaning
+func TestPropEdgeSpellings(t *testing.T) {
+	registerAll()
+	ev.KeepFirst("edge-spellings")
+	texts := []string{"12 // {min: 1 ### c ### }", "12 // {min: 1} ### c ###", "12 // {min: 1 # c\n}", "12 /* {min: 1 ### c ### } */", "\"s\" // {minLength: 1 ### c ###, maxLength: 2}", "12// {min: 1}",
+		"12/* {min: 1} */", "12# c", "\"s\"// n", "true# c", "null/* n */", "{}// n", "[]# c", "{ // {additionalProperties: true ### c ###}\n}", "[ // {minItems: 0 ### c ###}\n]",
+		"{\n  \"a\": 1 // {min: 1 ### c ### }\n}", "{\n  \"a\": 1, // {min: 1 # c\n  \"b\": 2\n}", "1 // n ### c ###", "1 ### c ### // n", "1 ### a ### ### b ###", "1 // {min: 1} - n # c", "1 // {min: 1}# c",
+		"{ // n # c\n  \"a\": 1 # c\n} # c", "[\n  1, // {min: 1} # c\n  2 /* {min: 1} */ # c\n]", "1 /* n # not a comment */", "1 /* {min: 1} - n ### x ### */", "###\nblock\n###\n1", "1\n###\nblock\n###",
+		"{ ### c ###\n  \"a\" ### c ### : 1\n}", "[ 1 ### c ###, 2 ]", "1 //", "1 // ", "1 /**/", "1 // -", "1 // - n", "{} // {}", "1 // {} - n", "1 /* {}\n*/"}
+	var n, bad int64
+	idx := 0
+	for _, tx := range texts {
+		for _, tr := range []string{"crlf", "cr", "pad-line-ends", "pad-line-starts", "blank-lines-around"} {
+			idx++
+			if !ev.Mine(idx) {
+				continue
+			}
+			c := CorpusCase{Text: tx, Transform: tr}
+			n++
+			ev.NonTrivial("edge-spellings", tx+"\x00"+tr)
+			if v := corpusOracle(c); v != nil && ev.Report("edge-spellings", c, v) {
+				bad++
+			}
+		}
+	}
+	ev.Count("edge-spellings", n)
+	ev.Exhaustive("edge-spellings", fmt.Sprintf("%d hand-written texts x 5 context-free re-layouts", len(texts)))
+	if bad > 0 {
+		t.Errorf("VIOLATION-CANDIDATE edge-spellings: %d", bad)
+	}
+}
+
 func TestPropFeatureTable(t *testing.T) {
 	registerAll()
 	ev.KeepFirst("feature-table")
